@@ -16,6 +16,7 @@ import (
 	_ "verifh/props/c12"
 	_ "verifh/props/c13"
 	_ "verifh/props/c14"
+	_ "verifh/props/c15"
 	_ "verifh/props/c16"
 	_ "verifh/props/c17"
 	_ "verifh/props/c18"
